@@ -198,6 +198,26 @@ func (f *File) Write(p []byte) (int, error) {
 			return 0, perr("write", f.name, syscall.EBADF)
 		}
 		off := f.off
+		if room := w.room(f.path); room >= 0 && w.Files[f.path] == f.ino {
+			end := off
+			if f.flag&realos.O_APPEND != 0 {
+				end = int64(len(f.ino.Data))
+			}
+			if grow := int(end) + len(p) - len(f.ino.Data); grow > room {
+				// the file system is full: what still fits is written
+				keep := len(p) - (grow - room)
+				if keep < 0 {
+					keep = 0
+				}
+				n := 0
+				if keep > 0 {
+					n = f.apply(p[:keep])
+				}
+				w.Stats.FaultsFired["enospc(full file system)@write"]++
+				w.logOp("write", f.opPath(), off, len(p), fmt.Sprintf("enospc after %d", n))
+				return n, perr("write", f.name, syscall.ENOSPC)
+			}
+		}
 		n := f.apply(p)
 		w.logOp("write", f.opPath(), off, len(p), fmt.Sprint(n))
 		return n, nil
